@@ -26,7 +26,7 @@ OPS = ['cf_cycles', 'cf_amp', 'cf_cycles_trough', 'cf_amp_trough', 'shape', 'sha
        'extrema_nsec_a', 'extrema_nsec_b', 'cf_nsec_a', 'cf_nsec_b', 'cf_ncyc5', 'user_refill', 'user_refill',
        'cf_empty_fk', 'extrema_empty_fk', 'shape_empty_fk', 'edges_nobursts', 'edges_nobursts_t',
        'shape_ncyc7_default', 'shape_default', 'obj_default_fit', 'group_default_fit',
-       'cf_nan', 'shape_nan', 'mono_nan', 'zerox_nan']
+       'cf_nan', 'shape_nan', 'mono_nan', 'zerox_nan', 'cf_amp_empty_bk', 'cf_amp_empty_th', 'cf_cycles_empty_th']
 
 class World:
     """the shared argument objects of one session"""
@@ -47,6 +47,7 @@ class World:
                              {'burst_method': 'amp', 'burst_kwargs': self.bk_min6, 'threshold_kwargs': self.th_a}]
         self.fek_empty = {'filter_kwargs': {}}                      # a filter dictionary that fixes neither n_cycles nor n_seconds
         self.fk_empty = {}
+        self.bk_empty = {}; self.th_empty = {}           # explicitly EMPTY option dictionaries are the caller's objects like any other
         self.th_strict = {'amp_fraction_threshold': 0.99, 'amp_consistency_threshold': 0.99, 'period_consistency_threshold': 0.99, 'monotonicity_threshold': 0.99, 'min_n_cycles': 3}
         self.sig_sub = implutil.present(self.sig, 'subclass')      # an ndarray subclass: np.asarray(sig_sub) is a new object on the same memory
         self.sig_series = pd.Series(self.sig.copy())
@@ -63,7 +64,7 @@ class World:
         rev = np.ascontiguousarray(self.sig[::-1])
         self._alt = (implutil.quiet(compute_features, rev.copy(), self.fs, self.fr, threshold_kwargs=dict(self.th_c)),
                      implutil.quiet(compute_features, rev.copy(), self.fs, self.fr, center_extrema='trough', threshold_kwargs=dict(self.th_c)))
-        self.shared = ['sig', 'th_c', 'th_a', 'bk', 'bk_min', 'fek', 'opts', 'opt_list', 'sigs2', 'sigs3', 'df', 'df_t', 'bk_min6', 'opt_list_amp', 'sig_sub', 'sig_series', 'fek_empty', 'fk_empty', 'th_strict', 'df_nob', 'df_nob_t', 'sig_nan']
+        self.shared = ['sig', 'th_c', 'th_a', 'bk', 'bk_min', 'fek', 'opts', 'opt_list', 'sigs2', 'sigs3', 'df', 'df_t', 'bk_min6', 'opt_list_amp', 'sig_sub', 'sig_series', 'fek_empty', 'fk_empty', 'th_strict', 'df_nob', 'df_nob_t', 'sig_nan', 'bk_empty', 'th_empty']
     def snapshot(self):
         out = {}
         for k in self.shared:
@@ -129,6 +130,9 @@ def _call(w, op):
         if op == 'cf_nsec_a': return q(compute_features, w.sig, w.fs, w.fr, threshold_kwargs=w.th_c, find_extrema_kwargs={'filter_kwargs': {'n_seconds': 0.3}})
         if op == 'cf_nsec_b': return q(compute_features, w.sig, w.fs, w.fr, threshold_kwargs=w.th_c, find_extrema_kwargs={'filter_kwargs': {'n_seconds': 0.6}})
         if op == 'cf_ncyc5': return q(compute_features, w.sig, w.fs, w.fr, center_extrema='trough', threshold_kwargs=w.th_c, find_extrema_kwargs={'filter_kwargs': {'n_cycles': 5}})
+        if op == 'cf_amp_empty_bk': return q(compute_features, w.sig, w.fs, w.fr, burst_method='amp', burst_kwargs=w.bk_empty, threshold_kwargs=w.th_a)
+        if op == 'cf_amp_empty_th': return q(compute_features, w.sig, w.fs, w.fr, burst_method='amp', burst_kwargs=w.bk_min6, threshold_kwargs=w.th_empty)
+        if op == 'cf_cycles_empty_th': return q(compute_features, w.sig, w.fs, w.fr, burst_kwargs=w.bk_empty, threshold_kwargs=w.th_empty)
         if op == 'cf_nan': return q(compute_features, w.sig_nan, w.fs, w.fr, threshold_kwargs=w.th_c)
         if op == 'shape_nan': return q(compute_shape_features, w.sig_nan, w.fs, w.fr, center_extrema='trough')
         if op == 'mono_nan': return q(compute_monotonicity, w.df, w.sig_nan)
@@ -211,7 +215,7 @@ def corpus(ctx):
 
 def generate(ctx):
     rng = ctx.rng
-    return [dict(seed=int(rng.integers(1 << 30)), ops=[str(o) for o in rng.choice(OPS, size=int(rng.integers(3, 9)))]) for _ in range(ctx.scale(36, 360))]
+    return [dict(seed=int(rng.integers(1 << 30)), ops=[str(o) for o in rng.choice(OPS, size=int(rng.integers(3, 9)))]) for _ in range(ctx.scale(56, 400))]
 
 def evaluate(ctx, cases):
     out = []
